@@ -10,8 +10,10 @@
    IndexSet [ast.tokens] are lists in insertion order (keys are unique by
    construction of those containers: [wf_astb] below checks it on every dumped
    AST); the HashMaps [precs]/[epp] are association lists (only looked up);
-   the HashMap [implicit_tokens] is iterated by the constructor, so its
-   iteration order is part of the abstract AST (the list [a_implicit]).
+   the HashMap [implicit_tokens] is only used as a set (since the upstream fix
+   "Eco implicit-token productions were numbered in hash-map order" the
+   constructor walks [ast.tokens] and filters by membership), so [a_implicit]
+   is the list of its keys in any order.
 
    [fixed = false] is the code as it is; [fixed = true] is the code after the
    proposed fix (prod_spans / actions / action_spans resized to prods.len()).
@@ -60,7 +62,7 @@ Record ast := mkAst {
   a_spans : list span;                   (* ast.spans: one per token *)
   a_precs : list (name * prec);
   a_avoid : option (list name);          (* keys of avoid_insert *)
-  a_implicit : option (list name);       (* keys of implicit_tokens IN ITERATION ORDER *)
+  a_implicit : option (list name);       (* keys of implicit_tokens (any order) *)
   a_epp : list (name * text);
   a_expect : option nat;
   a_expectrr : option nat;
@@ -312,7 +314,7 @@ Section Build.
       | None => Done (mkSt p1 p2 p3 (b_actions s) (b_aspans s) rp (b_atypes s))
       end.
 
-    (* one implicit token: grammar.rs:294-299 *)
+    (* one implicit token: grammar.rs:297-306 *)
     Definition implicit_prod (ridx : nat) (s : bstate) (t : name) : outcome bstate :=
       do rp <- push_at (b_rprods s) ridx (length (b_prods s));
       do tk <- token_map t;
@@ -334,8 +336,9 @@ Section Build.
         do sn <- rule_map start_name;
         Done (push_prod s rp [GR ir; GR sn] ridx false)
       else if opt_name_is (e_implicit_rule E) rn then
-        do toks <- match a_implicit a with Some l => Done l | None => Panic end;
-        do s1 <- ofold (implicit_prod ridx) toks s;
+        do keys <- match a_implicit a with Some l => Done l | None => Panic end;
+        (* for t in ast.tokens.iter().filter(|t| implicit_tokens.contains_key(t)) *)
+        do s1 <- ofold (implicit_prod ridx) (filter (fun t => mem t keys) (a_tokens a)) s;
         do rp <- push_at (b_rprods s1) ridx (length (b_prods s1));
         Done (push_prod s1 rp [] ridx false)
       else
